@@ -11,45 +11,89 @@ from . import common
 from .common import Corr, f2hex, hex2f, frac2s, flist, parse_list
 
 ID = "C06"
-LEAN_MODULES = ["TempestVerif.Props.C06"]
+LEAN_MODULES = ["TempestVerif.Props.C06", "TempestVerif.Lemmas.CeilComb"]
 RULE = ("systematic: generated (n, w) x the COMPLETE finite partition of the offset u0 for that pair — every breakpoint frac(n*C_j), "
         "breakpoint +-2^-40, its two float neighbours, midpoints of consecutive breakpoints, 0.0 and nextafter(1,0); the REAL "
         "tempest.tools.systematic_resample is run with numpy.random.random replaced by u0. "
         "Regime Q: few-bit dyadic weights (sum exactly 1; 1+-2^-k for k in 20..40 on both sides of SQRTEPS=2^-26; sums 2, 1/2, 4; zeros, "
         "dominant weight, length 1, empty vector, n=0); a case is compared exactly with the Rat model only after an audit showed every float "
         "operation of the Python (np.sum, w/s, (u0+i)/n, every running sum) to be exact for that input, otherwise it is sent to regime F. "
-        "Regime F: bit-exact Float model (same operation order, s=np.sum(w) passed in) on Dirichlet/skewed/unnormalised weights of length 1..300 "
-        "with random and adversarial offsets (neighbours of the float breakpoints, 0, nextafter(1,0), 1-1e-12). "
-        "multinomial: numpy legacy choice(p=w) under a seed vs the model fed with the uniforms the generator produces under the same seed. "
-        "Resampler.run (both schemes) and Sampler.posterior(resample=True) are driven on real StateManager histories and the indices they "
-        "used are compared with the model. Non-trivial = at least 2 weights and n >= 2 (the answer is not forced).")
-MODELLED = ["np.sum (pairwise) is not modelled: its value s is an input of the Float model (regime F) or audited to be exact (regime Q)",
+        "Regime F: bit-exact Float model (same operation order) on Dirichlet/skewed/unnormalised/all-zero weights of length 0..300, n up to 1000, "
+        "with random and adversarial offsets (neighbours of the float breakpoints, 0, nextafter(1,0), 1-1e-12); weights are handed over as "
+        "ndarray, list, tuple or a strided view, and the `random_state` argument is exercised (offset = first uniform after seeding). Every "
+        "systematic case is evaluated twice on the model: with s = np.sum(w) passed in and with the modelled pairwise np.sum (systnp). "
+        "np.sum: the Float model of numpy's pairwise summation vs np.sum bit-for-bit on vectors of length 0..1500 (all three code paths). "
+        "multinomial: numpy legacy choice(p=w) under a seed vs the model fed with the uniforms the generator produces under the same seed "
+        "(incl. size 0 and the empty vector). Resampler.run (both schemes, beta=0 warm-up branch, unknown scheme string, have_blobs on/off, "
+        "clustering on/off with a stub clusterer) is driven on real StateManager histories whose particles carry their pool index; the "
+        "indices it gathered with are compared with the model `resamplerRun`, and the gather of u/x/logl/blobs/labels is checked. "
+        "Sampler.posterior(resample=True) on real runs vs the model `posteriorResample`. "
+        "Non-trivial = at least 2 weights and n >= 2 (the answer is not forced); for np.sum: at least 8 summands.")
+MODELLED = ["np.sum is modelled as numpy's pairwise summation (8 accumulators, blocks of 128, 0.+ identity) and checked bit-for-bit (suite np.sum); "
+            "over the reals it is proved to be the sum (npSum_real)",
             "numpy legacy RandomState.choice(p=...) is modelled from its algorithm (cumsum, divide by last, searchsorted right); "
-            "its validation of p (ValueError) is not modelled",
-            "MT19937 is not modelled: the uniforms are read from the generator under the same seed",
-            "theorems are at exact real arithmetic; IEEE rounding of (u0+i)/n and of the running sum is covered by regime F only empirically"]
+            "its validation of p (ValueError when the compensated sum is off by > 2^-26, negative or NaN entries) is not modelled",
+            "MT19937 is not modelled: the uniforms are read from the generator under the same seed (a tape)",
+            "theorems about counts and means are at exact real arithmetic; IEEE rounding of (u0+i)/n and of the running sum is covered only "
+            "empirically by the bit-exact regime F (length/range/monotone/totality are proved for every scalar type, Float included)",
+            "the gather u[idx], x[idx], ... and the clusterer are outside the Lean model (checked here on tagged particles; owned by C07)"]
 ASSUMPTIONS = ["weights are finite and non-negative (Reweighter output); NaN/inf weights are outside the statement",
-               "length / range / monotone are proved with no assumption on the weights or their sum (any scalar type); the floor/ceil law, the "
-               "closed form and unbiasedness are proved for sum(w) = 1 exactly and for the renormalised branch (|sum(w)-1| > 2^-26, law for w/sum(w)); "
-               "inside the tolerance band 0 < |sum(w)-1| <= 2^-26 the routine uses the weights un-normalised: the law is proved for every index below "
-               "the last when sum(w) <= 1, the last index absorbs the surplus, and C06_syst_floor_ceil_needs_exact_sum shows the literal floor/ceil "
-               "clause fails in the band (w=[2^-30,1], n=2, u0=0 -> [0,1] although n*w_1 = 2)",
-               "multinomial: the expected number of copies n*w_i/sum(w) is the Lebesgue measure of the cell times n (independence of the n draws "
-               "and uniformity of MT19937 output are assumed)"]
+               "numpy.random.random() and random_sample() return values in [0,1)",
+               "length / range / monotone / no-exception are proved with no assumption on the weights or their sum (any scalar type). "
+               "Count law: exact floor/ceil + closed form for sum(w) = 1 and for the renormalised branch (|sum(w)-1| > 2^-26, law for w/sum(w)); "
+               "for EVERY sum the closed form with clamped cell edges (C06_syst_count_any_sum) and |count_j - n*w_j| < 1 + n*|sum(w)-1| "
+               "(C06_syst_count_bound; < 1 + n*2^-26 on the accepted band). The literal floor/ceil clause is false inside the band "
+               "(known finding F20: w=[2^-30,1], n=2, u0=0 -> [0,1] although n*w_1 = 2; C06_syst_floor_ceil_needs_exact_sum)",
+               "Unbiasedness: Lebesgue integral over u0 in [0,1): exactly n*w_j for sum(w)=1, n*w_j/sum(w) when renormalised; for every sum "
+               "the mean is n*(e_{j+1}-e_j) with bias <= n*|sum(w)-1| (exactly 0 below the last index when sum(w) <= 1, the last index absorbing "
+               "n*(1-sum(w)))",
+               "multinomial: n*w_i/sum(w) expected copies is proved for n independent uniform draws (product Lebesgue measure on [0,1)^n); "
+               "that MT19937 output behaves as such draws is assumed"]
 
 SQRTEPS = 2.0 ** -26
 ONE_M = math.nextafter(1.0, 0.0)
 
 
 # ------------------------------------------------------------------ the real code
-def _real_syst(n, wf, u0f):
+def _as_form(wf, form):
+    if form == "list":
+        return [float(x) for x in wf]
+    if form == "tuple":
+        return tuple(float(x) for x in wf)
+    if form == "strided":
+        a = np.zeros(2 * len(wf), dtype=float)
+        a[::2] = wf
+        a[1::2] = 7.5
+        return a[::2]
+    return np.array(wf, dtype=float)
+
+
+def _real_syst(n, wf, u0f, form="array"):
     from tempest.tools import systematic_resample
     with common.patched(np.random, "random", lambda *a, **k: u0f), warnings.catch_warnings():
         warnings.simplefilter("ignore")
         try:
-            return [int(i) for i in systematic_resample(n, np.array(wf, dtype=float))]
+            return [int(i) for i in systematic_resample(n, _as_form(wf, form))]
         except Exception as e:  # noqa
             return type(e).__name__
+
+
+def _real_syst_seeded(n, wf, seed):
+    """the `random_state` argument: the routine seeds the global generator itself and draws its own offset"""
+    from tempest.tools import systematic_resample
+    st = np.random.get_state()
+    try:
+        np.random.seed(seed)
+        u0f = float(np.random.random())
+        with warnings.catch_warnings():
+            warnings.simplefilter("ignore")
+            try:
+                r = [int(i) for i in systematic_resample(n, np.array(wf, dtype=float), random_state=seed)]
+            except Exception as e:  # noqa
+                r = type(e).__name__
+    finally:
+        np.random.set_state(st)
+    return u0f, r
 
 
 def _np_sum(wf):
@@ -303,10 +347,17 @@ def _f_line(n, wf, u0f):
     return f"syst.F n={n} s={f2hex(_np_sum(wf))} w={flist(wf, f2hex)} u0={f2hex(u0f)}"
 
 
+def _np_line(line):
+    """the same operation on the self-contained model (np.sum modelled as numpy's pairwise summation, not passed in)"""
+    toks = [t for t in line.split(" ") if not t.startswith("s=")]
+    toks[0] = toks[0].replace("syst.", "systnp.")
+    return " ".join(toks)
+
+
 def _syst_suites(tier, drv):
     cq = Corr("systematic-Q", "exact-dyadic (Rat model), admitted by the float-exactness audit")
-    cf = Corr("systematic-F", "bit-exact (Float model)")
-    jobs = []   # (corr, line, n, wf, u0f, tag)
+    cf = Corr("systematic-F", "bit-exact (Float model): both with s=np.sum(w) passed in and with the modelled pairwise np.sum")
+    jobs = []   # (corr, line, n, wf, u0f, tag, otag, form)
     rng = common.rng_for("C06.Q")
     for tag, n, w in gen_Q_pairs(rng, tier):
         wf_ok = True
@@ -331,28 +382,76 @@ def _syst_suites(tier, drv):
                 if not (0 <= u0 < 1):
                     continue
             if exact_audit(n, w, u0):
-                jobs.append((cq, _q_line(n, w, u0), n, wf, u0f, tag, otag))
+                jobs.append((cq, _q_line(n, w, u0), n, wf, u0f, tag, otag, "array"))
             else:
-                jobs.append((cf, _f_line(n, wf, u0f), n, wf, u0f, tag, otag + "(inexact->F)"))
+                jobs.append((cf, _f_line(n, wf, u0f), n, wf, u0f, tag, otag + "(inexact->F)", "array"))
     rng = common.rng_for("C06.F")
-    for tag, n, wf in gen_F_pairs(rng, tier):
+    fpairs = gen_F_pairs(rng, tier)
+    for tag, n, wf in fpairs:
         for otag, u0f in F_offsets(rng, n, wf, 5, 4):
-            jobs.append((cf, _f_line(n, wf, u0f), n, wf, u0f, tag, otag))
-    res = drv.batch([j[1] for j in jobs])
-    for (c, line, n, wf, u0f, tag, otag), ans in zip(jobs, res):
-        impl = _show(_real_syst(n, wf, u0f))
-        c.case((n, [f2hex(x) for x in wf], f2hex(u0f)), len(wf) >= 2 and n >= 2)
+            form = rng.choice(["array"] * 7 + ["list", "tuple", "strided"])
+            jobs.append((cf, _f_line(n, wf, u0f), n, wf, u0f, tag, otag, form))
+    # edge shapes in the Float regime too
+    for n, wf in ((3, []), (0, []), (0, [0.5, 0.5]), (0, [1.0]), (1, [1.0]), (1000, [0.25, 0.75]), (257, [0.1] * 10)):
+        for u0f in (0.0, 0.5, ONE_M):
+            jobs.append((cf, _f_line(n, wf, u0f), n, wf, u0f, "edge-shape", "fixed", "array"))
+    # the random_state argument
+    seeded = []
+    for tag, n, wf in fpairs[:: max(1, len(fpairs) // (40 if tier == "quick" else 400))]:
+        seed = rng.randrange(2 ** 31)
+        u0f, r = _real_syst_seeded(n, wf, seed)
+        seeded.append((cf, _f_line(n, wf, u0f), n, wf, u0f, tag, "random_state", r))
+    lines = [j[1] for j in jobs] + [j[1] for j in seeded]
+    res = drv.batch(lines + [_np_line(x) for x in lines])
+    res1, res2 = res[:len(lines)], res[len(lines):]
+    allj = [(j[:7], _show(_real_syst(j[2], j[3], j[4], j[7])), j[7]) for j in jobs] + [(j[:7], _show(j[7]), "random_state") for j in seeded]
+    for ((c, line, n, wf, u0f, tag, otag), impl, form), ans, ans_np in zip(allj, res1, res2):
+        c.case((n, [f2hex(x) for x in wf], f2hex(u0f), form), len(wf) >= 2 and n >= 2)
         c.count("w:" + tag)
         c.count("u0:" + otag)
+        c.count("input:" + form)
         c.count("len<=8" if len(wf) <= 8 else "len<=80" if len(wf) <= 80 else "len<=300")
+        c.count("n<=64" if n <= 64 else "n<=1000")
         s = _np_sum(wf)
         c.count("renormalised" if abs(s - 1.0) > SQRTEPS else ("sum==1" if s == 1.0 else "within-tolerance"))
         if impl in ("IndexError",):
             c.count("IndexError")
         if impl != ans:
             c.disagree(input=line, impl=impl, model=ans, kind="syst", n=n, w_hex=[f2hex(x) for x in wf], u0_hex=f2hex(u0f))
+        elif impl != ans_np:
+            c.disagree(input=_np_line(line), impl=impl, model=ans_np, kind="syst", n=n, w_hex=[f2hex(x) for x in wf], u0_hex=f2hex(u0f),
+                       note="model with np.sum inside")
         c.sample({"op": line if len(line) < 300 else line[:300] + "...", "impl": impl[:120], "model": ans[:120]})
     return [cq, cf]
+
+
+def _npsum_suite(tier, drv):
+    c = Corr("np.sum", "bit-exact (Float model of numpy's pairwise summation)")
+    rng = common.rng_for("C06.npsum")
+    arrs = [("weights", wf) for _, _, wf in gen_F_pairs(common.rng_for("C06.F"), tier)]
+    for _ in range(400 if tier == "quick" else 6000):
+        n = rng.choice([rng.randint(0, 20), rng.randint(0, 300), rng.randint(120, 140), rng.randint(250, 270), rng.randint(0, 1500)])
+        k = rng.random()
+        if k < 0.4:
+            arrs.append(("uniform", [rng.random() for _ in range(n)]))
+        elif k < 0.7:
+            arrs.append(("mixed-magnitude", [abs(rng.gauss(0, 1)) * 10 ** rng.randint(-12, 12) for _ in range(n)]))
+        elif k < 0.8:
+            arrs.append(("signed", [rng.gauss(0, 1) * 10 ** rng.randint(-6, 6) for _ in range(n)]))
+        elif k < 0.85:
+            arrs.append(("neg-zeros", [-0.0] * n))
+        else:
+            arrs.append(("dirichlet", _dirichlet(rng, max(n, 1), 0.3)))
+    res = drv.batch(["npsum.F w=" + flist(a, f2hex) for _, a in arrs])
+    for (tag, a), ans in zip(arrs, res):
+        impl = f2hex(_np_sum(a))
+        c.case((tag, [f2hex(x) for x in a]), len(a) >= 8)
+        c.count("kind:" + tag)
+        c.count("n<8" if len(a) < 8 else "n<=128" if len(a) <= 128 else "n>128 (recursive split)")
+        if impl != ans:
+            c.disagree(input="npsum.F n=%d" % len(a), impl=impl, model=ans, w_hex=[f2hex(x) for x in a][:40])
+        c.sample({"op": "npsum.F (%d values)" % len(a), "impl": impl, "model": ans})
+    return c
 
 
 # ------------------------------------------------------------------ correspondence: multinomial
@@ -360,7 +459,7 @@ def _mult_weights(rng, tier):
     F = Fraction
     out = [("fixed", [0.5, 0.25, 0.25]), ("fixed", [1.0]), ("fixed", [0.0, 1.0]), ("fixed", [0.0, 0.0, 1.0, 0.0]),
            ("fixed", [0.1] * 10), ("fixed", [0.6, 0.2, 0.15, 0.05]), ("fixed", [1 - 2.0 ** -10, 2.0 ** -10]),
-           ("fixed", [2.0 ** -30, 1.0]), ("fixed", [0.5, 0.5 - 2.0 ** -30])]
+           ("fixed", [2.0 ** -30, 1.0]), ("fixed", [0.5, 0.5 - 2.0 ** -30]), ("empty", []), ("empty", [])]
     for _ in range(300 if tier == "quick" else 5000):
         k = rng.random()
         m = rng.randint(1, 12) if rng.random() < 0.7 else rng.randint(13, 200)
@@ -401,11 +500,11 @@ def _mult_suite(tier, drv):
     jobs = []
     try:
         for tag, wf in _mult_weights(rng, tier):
-            n = rng.choice([1, 2, 5, 16, 40, len(wf)])
+            n = rng.choice([1, 2, 5, 16, 40, len(wf), 0]) if wf else rng.choice([1, 3])
             seed = rng.randrange(2 ** 31)
             us = _uniforms(seed, n)
             impl = _real_choice(seed, n, wf)
-            if isinstance(impl, str):
+            if isinstance(impl, str) and not (len(wf) == 0 and n > 0):
                 c.count("numpy-rejected:" + impl)      # outside numpy's own tolerance: not a case
                 continue
             jobs.append((f"mult.F w={flist(wf, f2hex)} us={flist(us, f2hex)}", tag, n, wf, seed, impl, "F"))
@@ -419,6 +518,7 @@ def _mult_suite(tier, drv):
         c.case((reg, n, [f2hex(x) for x in wf], seed), len(wf) >= 2 and n >= 2)
         c.count("w:" + tag)
         c.count("regime-" + reg)
+        c.count("n=0" if n == 0 else "n>0")
         if _show(impl) != ans:
             c.disagree(input=line[:400], impl=_show(impl), model=ans, kind="mult", n=n, w_hex=[f2hex(x) for x in wf], seed=seed)
         c.sample({"op": line[:300], "impl": _show(impl)[:120], "model": ans[:120]})
@@ -434,20 +534,30 @@ def _mk_state(m, rng):
     for hi in ([cut, m] if cut < m else [m]):
         k = hi - lo
         ids = np.arange(lo, hi, dtype=float)
-        st.update_current({"u": (ids.reshape(k, 1) + 0.25) / (m + 1), "x": ids.reshape(k, 1) * 10.0, "logl": ids, "beta": 0.5,
-                           "iter": 0, "logz": 0.0, "calls": 0, "steps": 1, "efficiency": 1.0, "ess": 1.0, "acceptance": 1.0})
+        st.update_current({"u": (ids.reshape(k, 1) + 0.25) / (m + 1), "x": ids.reshape(k, 1) * 10.0, "logl": ids, "blobs": ids * 100.0,
+                           "beta": 0.5, "iter": 0, "logz": 0.0, "calls": 0, "steps": 1, "efficiency": 1.0, "ess": 1.0, "acceptance": 1.0})
         st.commit_current_to_history()
         lo = hi
     return st
 
 
-def _run_resampler(scheme, n, wf, m_rng, u0f=None, seed=None):
-    """drive the real Resampler.run; particles carry their pool index in logl (and x = 10*index), so the indices used are recoverable"""
+class _StubClusterer:
+    """stands in for the fitted HierarchicalGaussianMixture: a deterministic label from the coordinate"""
+
+    def predict(self, u):
+        return (np.floor(np.asarray(u)[:, 0] * 1000.0).astype(int)) % 3
+
+
+def _run_resampler(scheme, n, wf, m_rng, u0f=None, seed=None, have_blobs=False, clustering=False, beta=0.5):
+    """drive the real Resampler.run; particles carry their pool index in logl (x = 10*index, blob = 100*index), so the indices used are
+    recoverable and the gather can be checked.  beta = 0 is the warm-up branch: nothing is resampled."""
     from tempest.steps.resample import Resampler
     st = _mk_state(len(wf), m_rng)
-    st.set_current("beta", 0.5)
-    r = Resampler(st, n_particles=n, resample=scheme, clusterer=None, clustering=False)
+    st.set_current("beta", beta)
+    clus = _StubClusterer() if clustering else None
+    r = Resampler(st, n_particles=n, resample=scheme, clusterer=clus, clustering=clustering, have_blobs=have_blobs)
     w = np.array(wf, dtype=float)
+    before = {k: st.get_current(k) for k in ("u", "x", "logl", "blobs")}
     try:
         if scheme == "syst":
             with common.patched(np.random, "random", lambda *a, **k: u0f), warnings.catch_warnings():
@@ -461,15 +571,30 @@ def _run_resampler(scheme, n, wf, m_rng, u0f=None, seed=None):
     logl = st.get_current("logl")
     x = st.get_current("x")
     u = st.get_current("u")
+    asg = st.get_current("assignments")
+    if beta == 0.0:
+        same = all(np.array_equal(before[k], st.get_current(k)) for k in before)
+        return "skip" if same and asg is not None and len(asg) == n and not np.any(asg) else "beta0-branch-changed-particles"
     idx = [int(round(float(v))) for v in logl]
     m = len(wf)
     coherent = (len(x) == len(idx) == len(u)
                 and all(float(x[k, 0]) == 10.0 * idx[k] and float(u[k, 0]) == (idx[k] + 0.25) / (m + 1) for k in range(len(idx))))
+    if have_blobs:
+        b = st.get_current("blobs")
+        coherent = coherent and len(b) == len(idx) and all(float(b[k]) == 100.0 * idx[k] for k in range(len(idx)))
+    want_asg = clus.predict(u) if clustering else np.zeros(n, dtype=int)
+    coherent = coherent and asg is not None and np.array_equal(np.asarray(asg), want_asg)
     return idx if coherent else "incoherent-gather"
 
 
+def _run_line(beta0, scheme, n, wf, u0f=0.0, us=()):
+    return (f"run.F beta0={1 if beta0 else 0} scheme={scheme} n={n} w={flist(wf, f2hex)} u0={f2hex(u0f)} "
+            f"us={flist(us, f2hex)}")
+
+
 def _resampler_suite(tier, drv):
-    c = Corr("Resampler.run", "bit-exact (Float model); indices recovered from tagged particles of a real StateManager history")
+    c = Corr("Resampler.run", "bit-exact (Float model `resamplerRun`, np.sum inside); indices recovered from tagged particles of a real "
+             "StateManager history; gather of u/x/logl/blobs and labels checked on the way")
     rng = common.rng_for("C06.run")
     st = np.random.get_state()
     jobs = []
@@ -488,18 +613,34 @@ def _resampler_suite(tier, drv):
                 s = sum(wf)
                 wf = [x / s for x in wf] if s > 0 else [1.0 / m] * m
             n = rng.choice([1, 2, 4, 7, 16, 33, m])
+            opts = {"have_blobs": rng.random() < 0.4, "clustering": rng.random() < 0.4}
+            if rng.random() < 0.08:
+                # warm-up branch (beta = 0): no resampling, particles untouched, labels all 0
+                scheme = rng.choice(["syst", "mult"])
+                impl = _run_resampler(scheme, n, wf, rng, u0f=0.5, seed=1, beta=0.0, **opts)
+                c.count("branch:beta=0 (skip)")
+                jobs.append((_run_line(True, scheme, n, wf, 0.5, _uniforms(1, n)), scheme, n, wf, impl, {"beta0": True}))
+                continue
+            if rng.random() < 0.02:
+                # a scheme string the constructor does not check (config validation, C18, rejects it earlier)
+                impl = _run_resampler("stratified", n, wf, rng, u0f=0.5, seed=1, **opts)
+                c.count("branch:unknown-scheme")
+                jobs.append((_run_line(False, "stratified", n, wf, 0.5, []), "other", n, wf, impl, {"scheme": "stratified"}))
+                continue
+            for k_, v_ in opts.items():
+                c.count(f"{k_}={v_}")
             if rng.random() < 0.5:
                 u0f = rng.choice([0.0, ONE_M, rng.random(), rng.random()])
-                impl = _run_resampler("syst", n, wf, rng, u0f=u0f)
-                jobs.append((_f_line(n, wf, u0f), "syst", n, wf, impl, {"u0_hex": f2hex(u0f)}))
+                impl = _run_resampler("syst", n, wf, rng, u0f=u0f, **opts)
+                jobs.append((_run_line(False, "syst", n, wf, u0f, []), "syst", n, wf, impl, {"u0_hex": f2hex(u0f)}))
             else:
                 seed = rng.randrange(2 ** 31)
                 us = _uniforms(seed, n)
-                impl = _run_resampler("mult", n, wf, rng, seed=seed)
+                impl = _run_resampler("mult", n, wf, rng, seed=seed, **opts)
                 if impl == "ValueError":
                     c.count("numpy-rejected")
                     continue
-                jobs.append((f"mult.F w={flist(wf, f2hex)} us={flist(us, f2hex)}", "mult", n, wf, impl, {"seed": seed}))
+                jobs.append((_run_line(False, "mult", n, wf, 0.0, us), "mult", n, wf, impl, {"seed": seed}))
     finally:
         np.random.set_state(st)
     res = drv.batch([j[0] for j in jobs])
@@ -513,7 +654,7 @@ def _resampler_suite(tier, drv):
 
 
 def _posterior_suite(tier, drv):
-    c = Corr("posterior(resample=True)", "bit-exact (Float model) on the weights the real compute_posterior passes to systematic_resample")
+    c = Corr("posterior(resample=True)", "bit-exact (Float model `posteriorResample`, n = len(w), np.sum inside) on the weights the real compute_posterior passes to systematic_resample")
     import tempest.tools as T
     from . import witnesses
     rng = common.rng_for("C06.post")
@@ -551,7 +692,7 @@ def _posterior_suite(tier, drv):
                     n, wf, idx = rec[0]
                     ok_shape = (n == len(wf) and len(x) == n and len(logl) == n and len(w) == n
                                 and all(float(t) == 1.0 / n for t in w))
-                    jobs.append((_f_line(n, wf, u0f), n, wf, u0f, idx if ok_shape else "bad-shape", sd, trim))
+                    jobs.append((f"post.F w={flist(wf, f2hex)} u0={f2hex(u0f)}", n, wf, u0f, idx if ok_shape else "bad-shape", sd, trim))
     finally:
         np.random.set_state(st)
     res = drv.batch([j[0] for j in jobs])
@@ -574,6 +715,7 @@ def correspond(tier):
         pre.disagree(input="tempest.tools.SQRTEPS", impl=repr(tools.SQRTEPS), model="2^-26")
     # the equivalence the multinomial suite rests on: choice(p) == searchsorted(cdf, random_sample) under one seed (numpy's own algorithm)
     out = [pre] + _syst_suites(tier, drv)
+    out.append(_npsum_suite(tier, drv))
     out.append(_mult_suite(tier, drv))
     out.append(_resampler_suite(tier, drv))
     out.append(_posterior_suite(tier, drv))
@@ -677,6 +819,48 @@ def oracle_mult(n, wf, seed):
     return None
 
 
+def oracle_posterior(sd, trim, u0f):
+    """Sampler.posterior(resample=True) on a real run: it must hand systematic_resample all of its weights and ask for as many
+    indices as there are weights, and return that many equally weighted samples; the indices must satisfy the point-wise laws."""
+    import tempest.tools as T
+    from . import witnesses
+    st = np.random.get_state()
+    try:
+        with contextlib.redirect_stdout(io.StringIO()), warnings.catch_warnings():
+            warnings.simplefilter("ignore")
+            np.random.seed(sd)
+            s = witnesses._mk_sampler(clustering=False, n_particles=16)
+            s._core._initialize_fresh()
+            for _ in range(4):
+                s.sample()
+        orig = T.systematic_resample
+        rec = []
+
+        def wrap(size, weights, random_state=None):
+            r = orig(size, weights, random_state)
+            rec.append((int(size), [float(x) for x in np.asarray(weights, dtype=float)], [int(i) for i in r]))
+            return r
+        with common.patched(T, "systematic_resample", wrap), common.patched(np.random, "random", lambda *a, **k: u0f), \
+                warnings.catch_warnings():
+            warnings.simplefilter("ignore")
+            try:
+                x, w, logl = s.posterior(resample=True, trim_importance_weights=trim)
+            except Exception as e:  # noqa
+                return f"posterior(resample=True) raised {type(e).__name__}: {e}"
+    finally:
+        np.random.set_state(st)
+    if len(rec) != 1:
+        return f"posterior(resample=True) called systematic_resample {len(rec)} times"
+    n, wf, idx = rec[0]
+    if n != len(wf):
+        return f"posterior(resample=True) asked for {n} indices for {len(wf)} weights"
+    if not (len(x) == len(logl) == len(w) == len(wf)):
+        return f"posterior(resample=True) returned {len(x)} samples / {len(w)} weights for {len(wf)} pool weights"
+    if any(float(t) != 1.0 / len(wf) for t in w):
+        return "posterior(resample=True) did not return equal weights 1/n"
+    return oracle_syst(n, wf, u0f, lambda n_, w_, u_: idx)
+
+
 def _fail_syst(msg, n, wf, u0f, via="systematic_resample"):
     return {"what": msg, "kind": "syst", "via": via, "n": n, "w": [float(x) for x in wf], "w_hex": [f2hex(x) for x in wf],
             "u0": float(u0f), "u0_hex": f2hex(u0f)}
@@ -739,6 +923,30 @@ def search(tier, hints):
                 if add(_fail_syst(msg, n, wf, u0f)):
                     return found
                 break
+    # 3b. large n with a sum off by d: a count drifts by n*w_j*d unless the routine renormalises (it must for d > 2^-26)
+    for d in (1e-3, -1e-3, 3e-4, 1e-4, -1e-4, 1e-5):
+        n = min(int(6 / abs(d)), 600000)
+        for wf in ([0.5 * (1 + d), 0.5 * (1 + d)], [0.7 * (1 + d), 0.2 * (1 + d), 0.1 * (1 + d)]):
+            for u0f in (0.0, 0.5, ONE_M):
+                msg = oracle_syst(n, wf, u0f)
+                if msg:
+                    if add(_fail_syst(msg + f" (weights sum to 1{d:+g}: outside the tolerance 2^-26, the routine must renormalise)", n, wf, u0f)):
+                        return found
+                    break
+    # 3c. posterior(resample=True) on real runs
+    want_post = any("post" in str(h.get("suite", "")) or "post." in str(h.get("input", "")) for h in hints) or not found
+    if want_post:
+        for sd in (3, 11):
+            for trim in (True, False):
+                for u0f in (0.0, 0.37, ONE_M):
+                    try:
+                        msg = oracle_posterior(sd, trim, u0f)
+                    except Exception as e:  # noqa
+                        msg = f"oracle crashed: {type(e).__name__}: {e}"
+                    if msg:
+                        if add({"what": msg, "kind": "posterior", "seed": sd, "trim": trim, "u0": u0f, "u0_hex": f2hex(u0f)}):
+                            return found
+                        break
     # 4. multinomial through Resampler.run
     for tag, wf in _mult_weights(common.rng_for("C06.searchM"), "quick"):
         wz = list(wf)
@@ -761,6 +969,9 @@ def replay(obj):
     if "witness" in f.get("replay", {}):
         from . import witnesses
         return witnesses.ALL[f["replay"]["witness"]]()
+    if f.get("kind") == "posterior":
+        msg = oracle_posterior(f["seed"], f["trim"], hex2f(f["u0_hex"]))
+        return {"fails": msg is not None, "detail": msg}
     wf = [hex2f(h) for h in f["w_hex"]]
     if f.get("kind") == "mult":
         msg = oracle_mult(f["n"], wf, f["seed"])
